@@ -72,6 +72,8 @@ type Exec struct {
 	deadline  time.Time
 	procs     *smt.Term
 	errWhere  string
+	pools     map[*Object]Value
+	tainted   bool
 	errStack  []string
 	poolHook  func(x *Exec, p Pointer) (Value, bool)
 }
@@ -139,6 +141,9 @@ func (x *Exec) check(extra *smt.Term, wantModel bool) (smt.Verdict, map[string]u
 		if p.IsFalse() {
 			return smt.Unsat, nil
 		}
+	}
+	if !x.deadline.IsZero() && time.Now().After(x.deadline) {
+		efail("wall-clock budget exceeded")
 	}
 	pct := x.pcTerm()
 	key := [2]int{pct.ID, extra.ID}
